@@ -886,3 +886,261 @@ func rollupSlotBaseIsTheFamilyStart(c *eng.Ctx) {
 		c.Check(okS, "base-kept-as-given", nil, nr, "newRollup stores its last argument as the target base", "")
 	})
 }
+
+// ---- F52 (C10): a look-up that took its snapshot first may call a key absent only if no flush completed meanwhile --------------------------
+func lookupMissIsFinalOnlyOnCurrentSnapshot(c *eng.Ctx) {
+	c.Rule("GUARD", kvsT+".getOrCreateValue{a pure look-up reports 'absent' only against the current snapshot}", func() {
+		f := c.Fn(kvsT + ".getOrCreateValue")
+		snap := c.One(f, eng.CallTo(kvsT+".getSnapshot"), "s.getSnapshot()")
+		mem := c.One(f, eng.AnyCallTo(kvsT+".GetValueFromMem"), "s.GetValueFromMem(bucket, key)")
+		if !eng.DominatedBy(f, mem.Instr, []eng.Site{snap}, nil) {
+			// memory first, snapshot afterwards: a key that left memory is in the snapshot taken later - nothing to re-check
+			c.Check(true, "memory-read-before-the-snapshot", mem.Instr, f, "the memory stores are read before the snapshot is taken", "")
+			return
+		}
+		// snapshot first (createValue needs it to detect a flush): the look-up-only exits
+		var nilEdges []eng.Edge
+		for _, b := range f.Blocks {
+			ifi, ok := b.Instrs[len(b.Instrs)-1].(*ssa.If)
+			if !ok {
+				continue
+			}
+			bo, ok := eng.Unwrap(ifi.Cond).(*ssa.BinOp)
+			if !ok || bo.Op != token.EQL && bo.Op != token.NEQ {
+				continue
+			}
+			if !(isParam(bo.X, "createFn") && eng.IsNilConst(bo.Y) || isParam(bo.Y, "createFn") && eng.IsNilConst(bo.X)) {
+				continue
+			}
+			if bo.Op == token.EQL {
+				nilEdges = append(nilEdges, eng.Edge{B: b, Succ: 0})
+			} else {
+				nilEdges = append(nilEdges, eng.Edge{B: b, Succ: 1})
+			}
+		}
+		if len(nilEdges) == 0 {
+			c.Undecided("unrecognised shape: no test of createFn against nil in getOrCreateValue")
+		}
+		// equal-edges of a comparison of the store's current snapshot with the one the look-up used
+		var same []eng.Edge
+		for _, b := range f.Blocks {
+			ifi, ok := b.Instrs[len(b.Instrs)-1].(*ssa.If)
+			if !ok {
+				continue
+			}
+			bo, ok := eng.Unwrap(ifi.Cond).(*ssa.BinOp)
+			if !ok || bo.Op != token.EQL && bo.Op != token.NEQ {
+				continue
+			}
+			x, y := bo.X, bo.Y
+			if !eng.DependsOnField(x, kvsT+".snapshot") {
+				x, y = y, x
+			}
+			if !eng.DependsOnField(x, kvsT+".snapshot") || !eng.SameValue(y, snap.Instr.(ssa.Value)) {
+				continue
+			}
+			if bo.Op == token.EQL {
+				same = append(same, eng.Edge{B: b, Succ: 0})
+			} else {
+				same = append(same, eng.Edge{B: b, Succ: 1})
+			}
+		}
+		n := 0
+		for _, e := range nilEdges {
+			first := e.B.Succs[e.Succ].Instrs[0]
+			for _, b := range f.Blocks {
+				r, ok := b.Instrs[len(b.Instrs)-1].(*ssa.Return)
+				if !ok {
+					continue
+				}
+				// a "not found, no error" exit of the look-up-only branch
+				if _, reach := eng.PathExists(eng.PathQuery{Fn: f, After: first, Target: func(x ssa.Instruction) bool { return x == r }}); !reach && first != ssa.Instruction(r) {
+					continue
+				}
+				if len(r.Results) < 4 || !eng.IsNilConst(r.Results[3]) {
+					continue
+				}
+				if k, isC := r.Results[1].(*ssa.Const); !isC || k.Value == nil || k.Value.String() != "false" {
+					continue
+				}
+				n++
+				okS := false
+				for _, se := range same {
+					if eng.DominatedByEdge(f, r, se) {
+						okS = true
+					}
+				}
+				c.Check(okS, fmt.Sprintf("absent-only-when-no-flush-completed[%d]", n), r, f,
+					"the look-up took its snapshot BEFORE reading memory (createValue needs that order); a flush that completes in between moves the key from memory into a file that snapshot does not see, so 'absent' is answered only on the edge where s.snapshot is still the snapshot used - otherwise the look-up is repeated. An equals / in filter on an existing tag value otherwise selects nothing while the dictionary is flushed",
+					"the not-found exit is reachable without s.snapshot having been compared with the look-up's snapshot")
+			}
+		}
+		c.Check(n >= 1, "lookup-only-exit-found", nil, f, "the look-up-only branch has a not-found exit", "")
+	})
+}
+
+// ---- F53 (C09): the schema store never adopts a schema that was read before the last flush -------------------------------------------------
+func schemaReadBeforeAFlushIsNotAdopted(c *eng.Ctx) {
+	p := c.P
+	const T = "index.metricSchemaStore"
+	c.Rule("GUARD", T+"{a schema read from the files before a flush completed is neither cached nor registered}", func() {
+		// (a) GetSchema caches what it loaded only if no flush completed since before the load, decided under the store lock
+		gs := c.Fn(T + ".GetSchema")
+		load := c.One(gs, eng.CallTo(T+".getSchemaFromKV"), "s.getSchemaFromKV(id)")
+		for i, add := range c.Some(gs, invokeOn(".cache", "Add"), "s.cache.Add(id, schema)") {
+			g := add.Instr.Parent()
+			held := p.Locks(g, nil).At(add.Instr)
+			okV := false
+			for _, b := range eng.BlocksT(gs) {
+				ifi, isIf := b.Instrs[len(b.Instrs)-1].(*ssa.If)
+				if !isIf {
+					continue
+				}
+				bo, isB := eng.Unwrap(ifi.Cond).(*ssa.BinOp)
+				if !isB || bo.Op != token.EQL && bo.Op != token.NEQ {
+					continue
+				}
+				x, y := bo.X, bo.Y
+				if !eng.DependsOnField(x, T+".flushVersion") || calleeName(eng.Unwrap(x)) == "getFlushVersion" {
+					x, y = y, x
+				}
+				// x: the store's version now (a field read), y: the version captured before the load (getFlushVersion() result)
+				yc, isC := eng.Unwrap(y).(*ssa.Call)
+				if !eng.DependsOnField(x, T+".flushVersion") || !isC || calleeName(yc) != "getFlushVersion" {
+					continue
+				}
+				if !eng.DominatedBy(gs, load.Instr, []eng.Site{{Fn: gs, Instr: yc}}, nil) {
+					continue
+				}
+				succ := 0
+				if bo.Op == token.NEQ {
+					succ = 1
+				}
+				if b.Parent() == g && eng.DominatedByEdge(g, add.Instr, eng.Edge{B: b, Succ: succ}) {
+					okV = true
+				}
+			}
+			c.Check(okV && held.HasField(T+".lock", false), fmt.Sprintf("cached-only-if-no-flush-since-the-read[%d]", i), add.Instr, g,
+				"Flush purges the schema cache under the store lock; a schema loaded from the files BEFORE that flush and added to the cache after it is stale (it lacks the fields / tag keys the flush persisted) and would be registered as THE schema of the metric: the cache takes a loaded schema only on the edge where the flush version still equals the one captured before the load, while the lock is held",
+				"held at cache.Add: "+held.String())
+		}
+		// (b) under the write lock, a completed flush makes the looked-up schema out of date whether it is nil or not
+		u := c.Fn(T + ".getOrCreateSchemaUnderLock")
+		for i, rr := range c.Some(u, eng.CallTo(T+".getSchemaFromKV"), "s.getSchemaFromKV(id) (re-read)") {
+			conds, _ := eng.GuardingConds(u, rr.Instr)
+			byVersion, byLookupNil := false, false
+			for _, cd := range conds {
+				if eng.DependsOnField(cd, T+".flushVersion") {
+					byVersion = true
+				}
+				bo, isB := eng.Unwrap(cd).(*ssa.BinOp)
+				if isB && (eng.IsNilConst(bo.X) || eng.IsNilConst(bo.Y)) {
+					other := bo.X
+					if eng.IsNilConst(other) {
+						other = bo.Y
+					}
+					for _, src := range leafSources(other) {
+						if isParam(src, "lookupSchema") {
+							byLookupNil = true
+						}
+					}
+				}
+			}
+			c.Check(byVersion && !byLookupNil, fmt.Sprintf("re-read-whenever-a-flush-completed[%d]", i), rr.Instr, u,
+				"when a flush completed after the caller's look-up and the memory stores do not hold the schema, the files are read again - also when the look-up returned a schema: that schema was read from (or cached from) the files before the flush",
+				fmt.Sprintf("guarded by the flush version: %v; additionally only when the looked-up schema is nil: %v", byVersion, byLookupNil))
+		}
+	})
+}
+
+// ---- F54 (C19): the state machine's mutex survives a panicking stage hook -------------------------------------------------------------------
+func stateMutexReleasedWhenAStageHookPanics(c *eng.Ctx) {
+	p := c.P
+	c.Rule("TYPESTATE", smT+"{stage code runs under the state mutex only when its release is deferred; a stage's complete hook runs once}", func() {
+		mu := smT + ".mutex"
+		n := 0
+		for _, g := range p.AllFuncs {
+			if !strings.HasPrefix(p.FuncKey(g), smT+".") {
+				continue
+			}
+			ls := p.Locks(g, nil)
+			for _, b := range g.Blocks {
+				for _, in := range b.Instrs {
+					cl, ok := in.(*ssa.Call)
+					if !ok || !cl.Common().IsInvoke() {
+						continue
+					}
+					if !strings.HasSuffix(cl.Common().Value.Type().String(), "stage.Stage") {
+						continue
+					}
+					if !ls.At(in).HasField(mu, true) {
+						continue
+					}
+					n++
+					// the release of that hold is deferred: a `defer sm.mutex.Unlock()` dominates the call
+					var defs []eng.Site
+					for _, b2 := range g.Blocks {
+						for _, i2 := range b2.Instrs {
+							if d, isD := i2.(*ssa.Defer); isD {
+								if f2 := d.Common().StaticCallee(); f2 != nil && f2.Name() == "Unlock" && len(d.Common().Args) > 0 && eng.DependsOnField(d.Common().Args[0], mu) {
+									defs = append(defs, eng.Site{Fn: g, Instr: i2})
+								}
+							}
+						}
+					}
+					c.Check(len(defs) > 0 && eng.DominatedBy(g, in, defs, nil), fmt.Sprintf("%s.%s:unlock-deferred[%d]", p.FuncKey(g), cl.Common().Method.Name(), n), in, g,
+						"Stats() / Complete() of a stage run operator and grouping code (meta-database reads, tracker callbacks); called with the state mutex held, its release is deferred: after a panic there the recover of executeStage / of the pool completes the stage AGAIN and needs the mutex - an explicit Unlock after the hooks leaves it locked and the pipeline never completes",
+						"the mutex is held at this call and its Unlock is not deferred")
+				}
+			}
+		}
+		c.Check(n >= 1, "stage-calls-under-the-mutex-found", nil, nil, "the state machine calls stage hooks while it holds its mutex", fmt.Sprintf("%d", n))
+		// the second completion of a stage whose hook panicked must not run the hook again
+		for _, g := range p.AllFuncs {
+			if !strings.HasPrefix(p.FuncKey(g), smT+".") {
+				continue
+			}
+			for i, s := range p.SitesDirect(g, invokeOn(".stage", "Complete")) {
+				conds, _ := eng.GuardingConds(g, s.Instr)
+				once := false
+				for _, cd := range conds {
+					if eng.DependsOn(cd, func(x ssa.Value) bool {
+						u, ok := x.(*ssa.UnOp)
+						if !ok || u.Op != token.MUL {
+							return false
+						}
+						fa, ok := u.X.(*ssa.FieldAddr)
+						return ok && strings.HasPrefix(eng.FieldKeyOfAddr(fa), "query.stageTracker.")
+					}) || eng.DependsOn(cd, func(x ssa.Value) bool {
+						// … or on what a helper of the state machine answered, when that helper decides on such a flag
+						cl, ok := x.(*ssa.Call)
+						if !ok {
+							return false
+						}
+						h := eng.TransparentCallee(cl)
+						if h == nil {
+							return false
+						}
+						for _, hb := range h.Blocks {
+							if ifi, isIf := hb.Instrs[len(hb.Instrs)-1].(*ssa.If); isIf && eng.DependsOn(ifi.Cond, func(y ssa.Value) bool {
+								u, ok := y.(*ssa.UnOp)
+								if !ok || u.Op != token.MUL {
+									return false
+								}
+								fa, ok := u.X.(*ssa.FieldAddr)
+								return ok && strings.HasPrefix(eng.FieldKeyOfAddr(fa), "query.stageTracker.")
+							}) {
+								return true
+							}
+						}
+						return false
+					}) {
+						once = true
+					}
+				}
+				c.Check(once, fmt.Sprintf("complete-hook-runs-once[%d]", i), s.Instr, g,
+					"whether a stage's Complete() hook runs depends on a flag of its tracker: the completion that follows a panic of the hook (with the panic as the stage's error) does not run the hook a second time", "Complete() is called on every completion of the stage")
+			}
+		}
+	})
+}
